@@ -71,6 +71,10 @@ CHECKS = [
         "Bounded contract checks of object life cycles with CBMC's memory-leak check and a GMP model in which every initialised number owns a heap token: error memory create/add/free, solution cache alloc/free, basis alloc/export/free, QSread_and_load_basis on a problem that owns a basis, QSexact_basis_status discarding the stale cache (loop-free, callees stubbed), the output stream of QSwrite_prob closed exactly once, QSwrite_basis frees only its local conversion. Allocation failure is explored (malloc may return NULL).",
         NOTE + "Not decided: leaks inside functions not listed in the evidence (QScreate_prob/QSfree_prob over a populated problem, readers' parse-error paths, simplex, LU), the EGlib slab pool, GMP's own allocator.",
         TECH, "DESIGN.md 4/C18"),
+    chk("C19", "other",
+        "Bounded contract checks of esolver's plumbing: the real main() with the real parseargs (arbitrary sequence of up to 6 documented options; library and EGio layer stubbed with arbitrary results): unreadable problem => non-zero exit and no solve; status line names exactly the returned status; body printed iff OPTIMAL; successful run closes the stream once; -b writes the problem's own basis after the solve; format chosen by extension (compression suffix ignored) or -L; exit value is the first error. The real QSexact_print_sol (2x2, accessors stubbed): every section lists precisely its non-zero entries under the right names with the right value strings.",
+        NOTE + "Not decided: the compressed-stream layer and the file system, option argument parsing (atoi/strtod values), and that the printed solution passes the exact check of C01 beyond what C01 itself decides.",
+        TECH, "DESIGN.md 4/C19"),
     chk("C20", "proof",
         "QSlogv contract (handler installed => handler called exactly once with the complete message, no fprintf/perror on a returning path; symbolic message length), QSwrite_prob (stdout only on request, open failure is an error), non-interactive reader never prompts; plus a static enumeration over the goto binaries of ALL library translation units (3 instantiations): every call site of a libc writer and every mention of stdout/stderr must be an audited site whose justification obligation holds.",
         NOTE + "Not decided: the sites audited as 'assumed' (debug printers behind TRACE-guarded calls are checked for the guard; console editor output; EGioClose pointer comparison); writes through streams the host itself passes in.",
@@ -85,4 +89,4 @@ NOT_APPLICABLE = [
     {"property_id": "C09", "reason": "same as C08 for the MPS format"},
     {"property_id": "C15", "reason": "relation between two solves of different inputs (2-safety); not a single-call contract"},
 ] + [{"property_id": p, "reason": _NYB} for p in
-     ["C19"]]
+     []]
